@@ -591,6 +591,9 @@ def run(cx, rep):
                        sample={"class": cname, "set/recurse/delete": ok})
                 gets = [n for n in walk(fn) if n["type"] == "CallExpression" and method_call(n) and s(method_call(n)[0]).endswith(".active") and method_call(n)[1] == "get"]
                 rep.ob("C13.4", "%s/cycle-check-first" % cname, len(gets) == 1 and gets[0]["span"]["start"] < sets[0]["span"]["start"], "%s.hash256 must test ctx.active before descending" % cname, cm.loc(fn))
+    # ---------------------------------------------------------------- C13.5
+    rep.rule("C13.5", "hash() / hash256() read every constructor argument they read on the reviewed tree")
+    ts_common.field_matrix_rule(cx, rep, "C13.5", ['hash', 'hash256'])
 
 
 def check_loops(rep, cm, cname, fn):
